@@ -444,7 +444,7 @@ def rw_generic(s, R, scalar_types=()):
 def rw_methodcalls(s, R, objs):
     """obj.m(args) / obj->m(args) -> Cls_m(&obj, args) / Cls_m(obj, args) for objects of modelled classes"""
     for name, cls in objs.items():
-        pat = re.compile(r'(?<![\w.>])' + re.escape(name) + r'\s*(\.|->)\s*(\w+)\s*\(')
+        pat = re.compile(r'(?:(?<![\w.>])' + re.escape(name) + r'|\(\*' + re.escape(name) + r'\))\s*(\.|->)\s*(\w+)\s*\(')
         pos = 0
         while True:
             m = pat.search(s, pos)
@@ -453,7 +453,10 @@ def rw_methodcalls(s, R, objs):
             i = m.end() - 1
             j = match_close(s, i)
             args = s[i + 1:j].strip()
-            recv = ('&' + name) if m.group(1) == '.' else name
+            if m.group(0).startswith('(*'):
+                recv = name
+            else:
+                recv = ('&' + name) if m.group(1) == '.' else name
             rep = '%s_%s(%s%s)' % (cls, m.group(2), recv, (', ' + args) if args else '')
             s = s[:m.start()] + rep + s[j + 1:]
             pos = m.start() + len(cls) + 1
@@ -564,6 +567,23 @@ def lex_lt(cmp=None):
         R.hit('const_tie_lex', n)
         return s
     return rule
+
+
+def rw_ref_locals(s, R):
+    """`auto& x = e;` / `const T& x = e;` (a local reference) -> `__auto_type x = &(e);` and later uses of x -> (*x)"""
+    pat = re.compile(r'(?<=[;{}\n])(\s*)(?:const\s+)?(?:auto|[\w:]+(?:<[^;=]*?>)?)\s*&\s*(\w+)\s*=\s*([^;]+);')
+    pos = 0
+    while True:
+        m = pat.search(s, pos)
+        if not m:
+            return s
+        name = m.group(2)
+        decl = '%s__auto_type %s = &(%s);' % (m.group(1), name, m.group(3))
+        rest = s[m.end():]
+        rest, n = re.subn(r'(?<![\w.>])(?<!->)\b' + re.escape(name) + r'\b', '(*' + name + ')', rest)
+        s = s[:m.start()] + decl + rest
+        pos = m.start() + len(decl)
+        R.hit('reference_local')
 
 
 def rw_assert(s, R, where):
@@ -851,12 +871,17 @@ def extract(repo, u, R=None, src_cache=None, siblings=None):
     header = re.sub(r'\b(static|friend|virtual|OSMIUM_\w+)\b', '', header)
     ret = u.ret if u.ret is not None else (rw_generic(header, Rules()).strip() or 'void')
     refpos = []
+    ret_ref = False
+    if ret.rstrip().endswith('&') and u.ret is None:
+        ret = ret.rstrip()[:-1].rstrip() + '*'
+        ret_ref = True
     if u.params is not None:
         cparams, refs = list(u.params), []
     else:
         cparams, refs = parse_params(f['params'], R, u.refs_keep)
         refpos = list(parse_params.last_refpos)
         cparams = [rw_generic(p, Rules()).strip() for p in cparams]
+    body = rw_ref_locals(body, R)
     body = rw_assert(body, R, where)
     body = rw_generic(body, R, u.scalar_types)
     if u.objs:
@@ -877,11 +902,14 @@ def extract(repo, u, R=None, src_cache=None, siblings=None):
         body, n = re.subn(r'(?<![\w.>])this\b', 'self', body)
         R.hit('this', n)
         cparams = [('const ' if (f['const'] and False) else '') + u.selftype + '* self'] + cparams
+    if ret_ref:
+        body, n = re.subn(r'\breturn\s+([^;]+);', r'return &(\1);', body)
+        R.hit('reference_return', n)
     body = apply_mustfire(body, u.post, R, where)
     typedefs = ''.join('typedef %s %s;\n' % (v, k) for k, v in u.bind.items() if not k.startswith('#'))
     defines = ''.join('#define %s %s\n' % (k[1:], v) for k, v in u.bind.items() if k.startswith('#'))
     return dict(unit=u, ret=ret, cparams=cparams, body=body, where=where, line=f['line'], end_line=f['end_line'],
-                typedefs=typedefs + defines, sha=raw_sha, brace_line=brace_line, refpos=refpos, hits=R.hits, refs=refs)
+                typedefs=typedefs + defines, sha=raw_sha, brace_line=brace_line, refpos=refpos, ret_ref=ret_ref, hits=R.hits, refs=refs)
 
 
 def members_struct(repo, chain, cname, typemap=None, extra='', src_cache=None):
@@ -968,3 +996,24 @@ def extract_const(repo, file, name, ctype=None):
     if not m:
         raise ExtractError('constant not found: ' + name)
     return 'static const %s %s = %s;\n' % (ctype or rw_generic(m.group(1), Rules()).strip(), name, rw_generic(' '.join(m.group(2).split()), Rules()))
+
+
+def rw_ret_ref_calls(body, R, names):
+    """calls to functions that return a C++ reference (now a pointer): f(args) -> (*f(args))"""
+    for fn in names:
+        pat = re.compile(r'(?<![\w.>*])' + re.escape(fn) + r'\s*\(')
+        pos = 0
+        while True:
+            m = pat.search(body, pos)
+            if not m:
+                break
+            if body[max(0, m.start() - 2):m.start()] == '(*':
+                pos = m.end()
+                continue
+            i = m.end() - 1
+            j = match_close(body, i)
+            rep = '(*' + body[m.start():j + 1] + ')'
+            body = body[:m.start()] + rep + body[j + 1:]
+            pos = m.start() + 2 + len(fn) + 1
+            R.hit('reference_returning_call')
+    return body
